@@ -8,11 +8,12 @@ From TV Require Import Proofs.SpansDefs Proofs.PrintBackBase Proofs.PrintBackVal
 Require Import Lia ZifyBool ZifyN ZifyNat Sorting.Sorted Sorting.Permutation.
 
 Inductive pitem : Type :=
-| PH (span : ospan) (q : option N) (a : bool) (d : decor)
+| PH (start : option N) (q : option N) (a : bool) (d : decor)
 | PL (k : key) (v : value).
 
+Definition span_start (t : tbl) : option N := match t_span t with Some sp => Some (fst sp) | None => None end.
 Definition hdr (t : tbl) (a : bool) : list pitem :=
-  if t_dotted t || (t_implicit t && negb a) then [] else [PH (t_span t) (t_position t) a (t_decor t)].
+  if t_dotted t || (t_implicit t && negb a) then [] else [PH (span_start t) (t_position t) a (t_decor t)].
 
 Fixpoint ALL (t : tbl) (a : bool) {struct t} : list pitem :=
   match t with
@@ -51,7 +52,7 @@ Qed.
 
 (* the fields a header item is made of *)
 Definition hframe (t t' : tbl) : Prop :=
-  t_decor t' = t_decor t /\ t_implicit t' = t_implicit t /\ t_dotted t' = t_dotted t /\ t_position t' = t_position t /\ t_span t' = t_span t.
+  t_decor t' = t_decor t /\ t_implicit t' = t_implicit t /\ t_dotted t' = t_dotted t /\ t_position t' = t_position t /\ span_start t' = span_start t.
 Lemma hframe_refl t : hframe t t.
 Proof. repeat split. Qed.
 Lemma hframe_set_items t m : hframe t (t_set_items t m).
